@@ -123,6 +123,7 @@ type machine struct {
 	uplUnusable     bool
 	reportedAtStart map[string]bool
 	startOf         map[*simrt.Task]time.Time // when each uploader was started
+	startGiven      map[*simrt.Task]bool      // whether it was handed a start time
 	entropyFails    bool
 	markerAtSend    map[int]bool // request seq -> upload/<week>.json existed when it was sent
 	faultsOn        bool
@@ -305,7 +306,7 @@ func scenarioMachine(c *hlib.RunCtx) *hlib.Violation {
 	m := &machine{c: c, s: s, t: t, prop: prop, tele: filepath.Join(c.Dir, teleName),
 		cfgByTask: map[*simrt.Task]*cfgVersion{}, dlFail: map[*simrt.Task]bool{}, xByTask: map[*simrt.Task][]float64{},
 		acked: map[string][]ack{}, stored: map[string]bool{}, verdict: map[string]int{}, uploaderOf: map[*simrt.Task]int{},
-		reportMaker: map[string]*simrt.Task{}, allMakers: map[string][]*simrt.Task{}, localMaker: map[string]*simrt.Task{}, fatalStatus: map[*simrt.Task]map[string]int{}, startOf: map[*simrt.Task]time.Time{}}
+		reportMaker: map[string]*simrt.Task{}, allMakers: map[string][]*simrt.Task{}, localMaker: map[string]*simrt.Task{}, fatalStatus: map[*simrt.Task]map[string]int{}, startOf: map[*simrt.Task]time.Time{}, startGiven: map[*simrt.Task]bool{}}
 	m.loc = filepath.Join(m.tele, "local")
 	m.upl = filepath.Join(m.tele, "upload")
 	telemetry.Default = telemetry.NewDir(m.tele)
@@ -599,6 +600,10 @@ func (m *machine) runRound(hist *[]string) {
 		})
 		m.uploaderOf[tk] = m.round
 		m.startOf[tk] = s.NowT()
+		if !st.IsZero() {
+			m.startOf[tk] = st // the start time the uploader was given
+			m.startGiven[tk] = true
+		}
 		tasks = append(tasks, tk)
 	}
 	for i := 0; i < nup-late; i++ {
